@@ -189,6 +189,9 @@ func instrList(fset *token.FileSet, list []ast.Stmt, n *int) []ast.Stmt {
 
 func instrument(src, dst string) error { return instrumentAs(src, src, dst) }
 
+// condLoops: loop bodies that get the loop condition prepended (see instrumentAs)
+var condLoops = map[*ast.BlockStmt][]ast.Stmt{}
+
 // instrumentAs instruments the contents of src as if they were the file named as (positions in
 // yield ids use that name).
 func instrumentAs(src, as, dst string) error {
@@ -218,6 +221,33 @@ func instrumentAs(src, as, dst string) error {
 		}
 		return true
 	})
+	// for init; cond; post { B }  ->  for init; ; post { Yield(id of the for statement); if !(cond) { break }; B }
+	// so that every re-evaluation of a loop condition (e.g. a compare-and-swap retried in the
+	// condition) is a point where the goroutine can be stopped
+	ast.Inspect(f, func(nd ast.Node) bool {
+		fs, ok := nd.(*ast.ForStmt)
+		if !ok || fs.Cond == nil {
+			return true
+		}
+		hasCall := false
+		ast.Inspect(fs.Cond, func(x ast.Node) bool {
+			if _, ok := x.(*ast.CallExpr); ok {
+				hasCall = true
+			}
+			return true
+		})
+		if !hasCall {
+			return true // plain comparisons cannot be visible operations
+		}
+		y := yieldStmt(fset, fs.Pos())
+		brk := &ast.IfStmt{
+			Cond: &ast.UnaryExpr{Op: token.NOT, X: &ast.ParenExpr{X: fs.Cond}},
+			Body: &ast.BlockStmt{List: []ast.Stmt{&ast.BranchStmt{Tok: token.BREAK}}},
+		}
+		condLoops[fs.Body] = []ast.Stmt{y, brk}
+		fs.Cond = nil
+		return true
+	})
 	skip := map[*ast.BlockStmt]bool{}
 	ast.Inspect(f, func(nd ast.Node) bool {
 		switch x := nd.(type) {
@@ -232,6 +262,9 @@ func instrumentAs(src, as, dst string) error {
 				return true
 			}
 			x.List = instrList(fset, x.List, &n)
+			if pre, ok := condLoops[x]; ok {
+				x.List = append(append([]ast.Stmt{}, pre...), x.List...)
+			}
 		case *ast.CaseClause:
 			x.Body = instrList(fset, x.Body, &n)
 		case *ast.CommClause:
